@@ -766,6 +766,70 @@ def c19_real_idle(wk):
         s.cleanup()
 
 
+def c19_real_requests(wk, loglevel, big):
+    """real server with an access log file: a few plain requests and (big) a file of several megabytes sent through the
+    class's own sendfile path to a client that reads slowly (partial sends); every request must leave exactly one record
+    whose byte count is what the client received -- whatever the error log's level is"""
+    import socket
+    import time
+    from drivers import realproc as rp
+    s = rp.Server(wk, workers=1, threads=2 if wk == "gthread" else None, name="c19",
+                  args=["--keep-alive", "2", "--access-logformat", "%(s)s|%(B)s|%(U)s|%(q)s"])
+    out = []
+    try:
+        logp = os.path.join(s.dir, "access.log")
+        s.cmd[-1:-1] = ["--access-logfile", logp]
+        i = s.cmd.index("--log-level")
+        s.cmd[i + 1] = loglevel
+        s.start()
+        paths = ["/pid?n=1", "/gen?prod=iter&sizes=100,200&cl=300&n=2"]
+        if big:
+            paths.append("/gen?prod=file&sizes=70000&rep=120&cl=8400000&n=3")
+        got = {}
+        for pth in paths:
+            c = s.connect(timeout=20)
+            if "rep=120" in pth:
+                c.setsockopt(socket.SOL_SOCKET, socket.SO_RCVBUF, 65536)
+            c.sendall(("GET %s HTTP/1.1\r\nHost: h\r\nConnection: close\r\n\r\n" % pth).encode())
+            buf = b""
+            c.settimeout(20)
+            if "rep=120" in pth:
+                time.sleep(0.8)          # the server's send buffer fills up: its sends become partial
+            try:
+                while True:
+                    d = c.recv(65536)
+                    if not d:
+                        break
+                    buf += d
+            except OSError:
+                pass
+            c.close()
+            head, _, body = buf.partition(b"\r\n\r\n")
+            st = int(head.split(b" ")[1]) if head.startswith(b"HTTP/1.") else -1
+            got[pth.split("n=")[-1]] = (st, len(body))
+        time.sleep(0.4)
+        try:
+            with open(logp) as f:
+                recs = [ln.rstrip("\n") for ln in f]
+        except OSError:
+            recs = []
+        for key, (st, nbody) in sorted(got.items()):
+            mine = [r for r in recs if r.endswith("n=" + key)]
+            status = nbytes = -1
+            if mine:
+                parts = mine[0].split("|")
+                try:
+                    status, nbytes = int(parts[0]), int(parts[1])
+                except (ValueError, IndexError):
+                    pass
+            ev = {"kind": "completed", "nrec": len(mine), "status": status, "bytes": nbytes, "wstatus": st, "wbody": nbody, "maxlines": 1}
+            out.append((ev, {"kind": wk, "fmt": "%(s)s|%(B)s|%(U)s|%(q)s", "what": "real-%s-loglevel=%s" % ("bigfile" if key == "3" else "plain", loglevel),
+                             "records": mine[:3], "wire": "", "escaped": None, "ncalls": 1, "request": "GET n=" + key}))
+        return out
+    finally:
+        s.cleanup()
+
+
 def c19(ctx):
     import base64
     rng = ctx.rng
@@ -861,6 +925,12 @@ def c19(ctx):
     for ev, info in _parallel(plan, lambda a, i: c19_real_idle(a)):
         traces.append({"ev": [ev]})
         metas.append(info)
+    plan2 = [("eventlet", "debug", True), ("gthread", "error", True), ("sync", "warning", False)] if ctx.quick else \
+        [(wk, lv, True) for wk in ("sync", "gthread", "gevent", "eventlet") for lv in ("debug", "info", "warning", "critical")]
+    for res in _parallel(plan2, lambda a, i: c19_real_requests(a[0], a[1], a[2])):
+        for ev, info in res:
+            traces.append({"ev": [ev]})
+            metas.append(info)
     verdicts, stats = tlc.validate_batch("AccessTrace", "AccessTrace.cfg", traces, name="AccessTrace_C19", chunk=6000)
     ctx.add_traces(len(traces), stats)
     for t, m, (v, step) in zip(traces, metas, verdicts):
